@@ -606,6 +606,12 @@ def run(ctx):
         'A case is distinct by (kind, version, operation/attribute names/client list/class+tag).' % (len(list(OP)), len(UNSUPPORTED)))
     ctx.regen(only=['attrrules', 'versions', 'enums', 'schemas'])
     ctx.prove('props/C16.v')
+    unc = ctx.model_output('From PK Require Import Version.SchemaFields.\nFrom Coq Require Import String.\nOpen Scope string_scope.\n',
+                           'SchemaFields.schema_class_minver_uncovered')
+    ctx.cov['schema_class_minver_uncovered'] = unc
+    if not re.search(r'=\s*(nil|\[\s*\])', unc):
+        ctx.notes.append('class-level version refusals of gen/Schemas.v whose class Version/Spec.v (SpecClassVersions) does not list '
+                         '(not compared with the specification, to be decided): ' + unc[:600])
     cases, meta = [], []
     comparison_cases(ctx, cases, meta)
     acceptance_cases(ctx, cases, meta)
